@@ -32,17 +32,18 @@ claim("C02", "MIR effect analysis + edge dominance + taint",
 claim("C03", "MIR must-pass-through on CFG + def-use + only-allowed-bypass",
       "Cap and budget clauses are decided for every input: pushes into the returned vector are cut off from entry and from each other when the cap/budget pass edges are removed "
       "(must-pass-through on the MIR CFG), the constant is evaluated, and the running total's definitions are enumerated. Of the progress clause only a structural part is decided: with nothing planned yet, the planned range is widened to the "
-      "size announced by the header at the cursor, and the branches that may bypass the widening are enumerated (C03.3); the planner arithmetic over runtime sizes is not decided.", design="4/C03, 10.1")
+      "size announced by the header at the cursor, and the branches that may bypass the widening are enumerated (C03.3); a budget stop ends the batch (C03.4: no push reachable from the stop edge, "
+      "boolean flags taken at their value); the planner arithmetic over runtime sizes is not decided.", design="4/C03, 10.1")
 claim("C14", "abstract interpretation over char partition + who-may-push",
       "Decides the property for all key strings at the level of path components: exact image of the sanitizer closure over a finite partition of char, fallback-discipline obligations, "
       "and a who-may-push rule over every PathBuf::push/Path::join in the crate: pushes live in the path manager only and the operand is the sanitizer's result through views and "
       "copies only (any transformation applied after the sanitizer is reported), a timestamp or a literal.", design="4/C14, 10.1")
 
 claim("C01", "MIR must-pass-through + sibling agreement of header tables + dominance + only-allowed-bypass",
-      "Decides five structural clauses for every input: (1) every entry a consuming read counts as consumed (cursor advance, count decrement) is handed to the caller - must-pass-through "
+      "Decides six structural clauses for every input: (1) every entry a consuming read counts as consumed (cursor advance, count decrement) is handed to the caller - must-pass-through "
       "between the per-entry counter and the push, with offset-addressed-only edges derived from the code; read_next's cursor commits are followed by the return of the entry just read; "
       "(2) the two encoders and seven decoders agree on the header tables (symbolic expressions reconstructed from MIR); (3) every Entry construction is dominated by the checksum-equal edge; (4) the first planned range of a batch read is widened to the entry at the cursor (shared with C03.3); (5) both paths of Reader::append_block_to_chain carry a tail position "
-      "over to the sealed chain identically and only under tail_block_id == block.id. "
+      "over to the sealed chain identically and only under tail_block_id == block.id; (6) once the batch parser has given up an entry for the byte budget nothing more is pushed (shared with C03.4). "
       "Ordering, once-only delivery across blocks and the planner/budget interaction are not decided.", design="4/C01")
 claim("C04", "MIR path rules over Ok/Err edges (NOEXIT, must-not-reach), error discipline",
       "Decides for all inputs and failure points the shape conditions of 'failed appends leave no trace': no exit between sealing a block and installing its successor, rejections precede "
@@ -69,7 +70,8 @@ claim("C05", "MIR RMW rule on slices with lock-guard provenance + truth table of
 claim("C09", "MIR only-allowed-bypass between commit and persist + reaching stores + finite evaluation + ORD",
       "Decides persist-before-return for StrictlyAtOnce as a path property: from each cursor commit the persisted-index write can be bypassed only by the should_persist verdict, "
       "checkpoint=false or a poisoned lock, and every WalIndex method used to record the position persists on all of its paths; the (index, offset) pair that is packaged for the "
-      "index equals the cursor at that point (reaching-stores analysis); should_persist's strict arm is evaluated; the batch commit closure's persist flag/target obligations; write-fsync-rename order of the index. "
+      "index equals the cursor at that point (reaching-stores analysis); a provisional tail position is never persisted behind the reader's in-memory progress (constant 0 only under "
+      "tail_block_id != active block); should_persist's strict arm is evaluated; the batch commit closure's persist flag/target obligations; write-fsync-rename order of the index. "
       "Tail ids versus recovery's synthetic ids and the AtLeastOnce redelivery bound are not decided.", design="4/C09")
 claim("C10", "MIR ordering / must-pass-through of sync calls on acknowledgement paths",
       "'Sync before acknowledging' decided on every path: SyncEach arm of the single append, flush loops of both batch paths, seal-after-flush, the call-graph link from "
@@ -95,7 +97,7 @@ claim("C11", "MIR panic-freedom enumeration with discharge rules/table + who-may
       "a dominance/interval rule or a reasoned table row; forbids unvalidated rkyv roots on file bytes (9 known findings listed); requires a dominating bound for every use of the "
       "on-disk length; checksum gate. Hangs and mis-association of valid-looking foreign entries are not decided.", design="4/C11")
 claim("C13", "static inventory + interprocedural key provenance + who-may-call for filesystem sinks",
-      "Decides which process-global state exists (inventory of interior-mutable statics against a reasoned table), that global maps are keyed by root-derived paths (one known finding), "
+      "Decides which process-global state exists (inventory of interior-mutable statics against a reasoned table), that global maps - the two trackers and the mapping cache - are keyed by the whole root-derived path, through views and copies only (one known finding), "
       "and that filesystem access is confined to triaged functions with root-derived operands. Observable interference itself is not decided.", design="4/C13")
 
 claim("C18", "MIR (stub harness) panic-freedom + def-use/ordering invariants + written lemma",
